@@ -11,6 +11,12 @@ sys.path.insert(0, HERE)
 PROPS = [f"C{i:02d}" for i in range(1, 19)]
 BASELINE = "cd /repo && /venv/bin/python -m pytest -ra -q -p no:cacheprovider --timeout=900 --continue-on-collection-errors"
 
+LINTS = (
+    "  In addition, contradiction rules are applied to every function of the modules the property is anchored in (and "
+    "to new helpers called from them): LOOP-ONCE, ITER-MUTATE, QUBIT-TRUTHY, TRUTHY-OPTIONAL, DEFAULT-MUTATED, "
+    "CLASS-MUTABLE, SUBS-SEQUENTIAL, COUNT-INDEX, NAME-BINDERS, STALE-PRECEDENCE - each exact, each expected to match "
+    "nothing on a sound tree, each with a positive and a negative example re-evaluated on every run."
+)
 NA_REASONS = {}  # filled when a property is declined for good
 
 checks, na = [], []
@@ -35,12 +41,12 @@ for pid in PROPS:
                 "category": "other",
                 "text": "Static analysis of the repository's syntax trees (no execution): decides the structural "
                 "clauses of the property that are necessary conditions of the behaviour, on every construct of the "
-                "current tree, not the behaviour itself. " + mod.EXPLANATION,
+                "current tree, not the behaviour itself. " + mod.EXPLANATION + LINTS,
                 "design_ref": f"DESIGN.md section 4, {pid}",
             },
             "level_note": "Trusted: CPython ast as the grammar; fixed tables of Python operator semantics, sympy head "
             "arities, gate action; sympy and foreign frameworks. Not decided: " + getattr(mod, "NOT_DECIDED", ""),
-            "technique": "static analysis: " + mod.TECHNIQUE,
+            "technique": "static analysis: " + mod.TECHNIQUE + "; contradiction rules (lints) over every function of the anchored modules",
         }
     )
 
